@@ -6,7 +6,7 @@ package mqttproxy
 // C09 — rate limiter never releases more than limitForPeriod requests per
 // period.
 //
-// One run drives ONE of four real systems (drawn per scenario) with 1-4
+// One run drives ONE of five real systems (drawn per scenario) with 1-4
 // simulated tasks on the virtual clock:
 //
 //   util   pkg/util/ratelimiter.RateLimiter   (AcquirePermission / WaitPermission)
@@ -18,6 +18,13 @@ package mqttproxy
 //          rules, requests matching no rule, cancellation of waiting requests
 //   mqtt   the unexported mqttproxy Limiter (newLimiter / acquirePermission):
 //          request limiter, byte limiter and the request+byte multi limiter
+//   mqttc  the same limiters met the way a connected MQTT client meets them
+//          (c09_mqttc_test.go): CONNECT through Broker.connectionValidation
+//          (connectionLimit, per-client limiter from clientPublishLimit), then
+//          PUBLISH / PINGREQ / PUBACK packets through Client.processPacket with
+//          QoS 0/1/2, DUP re-sends of unacknowledged publishes, RETAIN, several
+//          topics and payload sizes, several clients, disconnect / reconnect /
+//          take-over of a client id, a publish pipeline that drops packets
 //
 // Observation. The limiter package reads the time through its own `nowFunc`
 // hook; the harness wraps it (zz_verif_c09_clockhook.go) and so learns the
@@ -75,6 +82,9 @@ package mqttproxy
 //     the period's request permits are used up or when the byte permits of the
 //     period are used up, where an oversize packet may be charged to the
 //     following periods (both readings accepted).
+//   * mqttc: see the header of c09_mqttc_test.go (packet size = wire size with
+//     a framing allowance; a reconnect may start a fresh budget or continue the
+//     old one, whichever limiter creation is observed).
 
 import (
 	stdctx "context"
@@ -154,6 +164,14 @@ type c09Scenario struct {
 	PeriodS   int `json:"period_s,omitempty"`
 
 	Tasks []c09Task `json:"tasks"`
+
+	// mqttc (c09_mqttc_test.go): ReqRate/BytesRate/PeriodS are the broker's
+	// clientPublishLimit, Conn* its connectionLimit
+	NoPubLimit    bool     `json:"no_pub_limit,omitempty"` // clientPublishLimit left out of the spec
+	ConnReqRate   int      `json:"conn_req_rate,omitempty"`
+	ConnBytesRate int      `json:"conn_bytes_rate,omitempty"`
+	ConnPeriodS   int      `json:"conn_period_s,omitempty"`
+	Clients       []c09Cli `json:"clients,omitempty"`
 }
 
 func c09PickTimeout(rng *sim.Rand, P int64) int64 {
@@ -290,11 +308,11 @@ func c09Gen(rng *sim.Rand, tier string) interface{} {
 	sc.OffsetUs = int64(rng.Pick(0, 1, 999, 123456, rng.Intn(2000000)))
 	x := rng.Intn(100)
 	switch {
-	case x < 35:
+	case x < 33:
 		sc.Mode = "util"
 		sc.Pol = c09GenPol(rng)
 		sc.Tasks = c09GenTasks(rng, sc.Pol.PeriodUs, sc.Pol.TimeoutUs, rng.Range(6, 60), false, func(op *c09Op) { op.Wait = rng.Bool(0.3) })
-	case x < 45:
+	case x < 42:
 		sc.Mode = "multi"
 		sc.Pol = c09GenPol(rng)
 		nd := rng.Range(1, 3)
@@ -302,7 +320,7 @@ func c09Gen(rng *sim.Rand, tier string) interface{} {
 			sc.Dims = append(sc.Dims, rng.Pick(1, 2, 3, 5, 8))
 		}
 		sc.Tasks = c09GenTasks(rng, sc.Pol.PeriodUs, sc.Pol.TimeoutUs, rng.Range(6, 60), false, func(op *c09Op) { op.Wait = rng.Bool(0.3) })
-	case x < 80:
+	case x < 75:
 		sc.Mode = "filter"
 		defaults := rng.Bool(0.08)
 		defSwitch := rng.Bool(0.2)
@@ -421,6 +439,8 @@ func c09Gen(rng *sim.Rand, tier string) interface{} {
 			cur = ns
 			sc.Reloads = append(sc.Reloads, rl)
 		}
+	case x < 87:
+		c09GenMQTTClients(rng, sc)
 	default:
 		sc.Mode = "mqtt"
 		sc.ReqRate = rng.Pick(0, 1, 2, 3, 5, 5)
@@ -1309,8 +1329,134 @@ type c09MObs struct {
 	seq   uint64
 	who   string
 	a     time.Time
-	bytes int
+	bytes int // size of the packet; for packets sent by a client: its size on the wire
+	hi    int // upper bound of what the limiter may charge for it (= bytes in mode "mqtt")
 	ok    bool
+	note  string
+	info  bool // shown in the history only (e.g. a packet that is not a PUBLISH)
+}
+
+// c09MLim is one MQTT limiter (timeout 0) with the observations made on it.
+type c09MLim struct {
+	name    string
+	req     int
+	bytes   int
+	period  time.Duration
+	created time.Time
+	obs     []c09MObs
+}
+
+type c09MRes struct {
+	sig                                    string
+	adm, rej                               int
+	rejReq, rejBytes, rejCarry, overshoot bool
+	boundary                               bool
+}
+
+func (l *c09MLim) per(t time.Time) int64 {
+	return c09FloorDiv(int64(t.Sub(l.created)), int64(l.period))
+}
+
+// eval checks one MQTT limiter's observations against the MQTT clause of the
+// statement: per period at most requestRate packets admitted, admitted bytes
+// exceed bytesRate by less than one packet, rejected only when the period's
+// request or byte permits are used up. Packet sizes are intervals
+// [bytes, hi]: the rate rules use the lower bounds for the sum and the upper
+// bound for "one packet", the justification of a rejection uses the upper
+// bounds.
+func (l *c09MLim) eval(e *c09Env) c09MRes {
+	r := e.r
+	var res c09MRes
+	obs := l.obs
+	sort.SliceStable(obs, func(i, j int) bool { return obs[i].seq < obs[j].seq })
+	cnt := map[int64]int{}
+	sum := map[int64]int{}
+	sumHi := map[int64]int{}
+	maxp := map[int64]int{}
+	var debtQ int64
+	debt := 0
+	var sig strings.Builder
+	hist := func(upto int) string {
+		var b strings.Builder
+		fmt.Fprintf(&b, "%s requestRate=%d bytesRate=%d period=%v created@%v; history:", l.name, l.req, l.bytes, l.period, l.created.Sub(e.base))
+		from := upto - 24
+		if from < 0 {
+			from = 0
+		}
+		for i := from; i <= upto; i++ {
+			o := obs[i]
+			if o.info {
+				fmt.Fprintf(&b, "\n  %s @%v(p%d) %s", o.who, o.a.Sub(e.base), l.per(o.a), o.note)
+				continue
+			}
+			fmt.Fprintf(&b, "\n  %s @%v(p%d) %dB admitted=%v %s", o.who, o.a.Sub(e.base), l.per(o.a), o.bytes, o.ok, o.note)
+		}
+		return b.String()
+	}
+	for i, o := range obs {
+		if r.Violated() {
+			break
+		}
+		if o.info {
+			continue
+		}
+		q := l.per(o.a)
+		if q > debtQ {
+			if l.bytes > 0 {
+				d := int64(debt) - (q-debtQ)*int64(l.bytes)
+				if d < 0 {
+					d = 0
+				}
+				debt = int(d)
+			}
+			debtQ = q
+		}
+		if q >= 1 && o.a.Sub(l.created)%l.period == 0 {
+			res.boundary = true
+		}
+		if o.ok {
+			res.adm++
+			fmt.Fprintf(&sig, "A%d,", q)
+			cnt[q]++
+			sum[q] += o.bytes
+			sumHi[q] += o.hi
+			if o.hi > maxp[q] {
+				maxp[q] = o.hi
+			}
+			debt += o.hi
+			if l.req > 0 && cnt[q] > l.req {
+				r.Violate("C09.mqtt-request-rate", "%d packets admitted in period %d, requestRate=%d\n%s", cnt[q], q, l.req, hist(i))
+				break
+			}
+			if l.bytes > 0 && sum[q] > l.bytes {
+				res.overshoot = true
+			}
+			if l.bytes > 0 && sum[q]-l.bytes >= maxp[q] {
+				r.Violate("C09.mqtt-bytes-rate", "%d bytes admitted in period %d: exceeds bytesRate=%d by %d, not less than one packet (largest admitted in the period: %d)\n%s",
+					sum[q], q, l.bytes, sum[q]-l.bytes, maxp[q], hist(i))
+				break
+			}
+			continue
+		}
+		res.rej++
+		fmt.Fprintf(&sig, "R%d,", q)
+		byReq := l.req > 0 && cnt[q] >= l.req
+		byBytes := l.bytes > 0 && sumHi[q] >= l.bytes
+		byCarry := l.bytes > 0 && debt >= l.bytes
+		switch {
+		case byReq:
+			res.rejReq = true
+		case byBytes:
+			res.rejBytes = true
+		case byCarry:
+			res.rejCarry = true
+		default:
+			r.Violate("C09.mqtt-unjustified-reject", "%s (%d bytes) rejected in period %d with %d/%d packets and %d/%d bytes admitted in the period (%d bytes charged incl. overshoot carried from earlier periods)\n%s",
+				o.who, o.bytes, q, cnt[q], l.req, sumHi[q], l.bytes, debt, hist(i))
+		}
+	}
+	res.sig = sig.String()
+	return res
 }
 
 func c09ExecMQTT(e *c09Env, sc *c09Scenario, main *c09TL) {
@@ -1358,7 +1504,7 @@ func c09ExecMQTT(e *c09Env, sc *c09Scenario, main *c09TL) {
 				if !c09Catch(r, who, func() { ok = lim.acquirePermission(op.Bytes) }) {
 					return
 				}
-				o := c09MObs{who: who, a: time.Now(), bytes: op.Bytes, ok: ok}
+				o := c09MObs{who: who, a: time.Now(), bytes: op.Bytes, hi: op.Bytes, ok: ok}
 				if len(tl.nows) > 0 {
 					o.a, o.seq = tl.nows[0], tl.seqs[0]
 				} else {
@@ -1370,110 +1516,35 @@ func c09ExecMQTT(e *c09Env, sc *c09Scenario, main *c09TL) {
 		})
 	}
 	r.WaitTasks()
-	sort.SliceStable(obs, func(i, j int) bool { return obs[i].seq < obs[j].seq })
-	cnt := map[int64]int{}
-	sum := map[int64]int{}
-	maxp := map[int64]int{}
-	var debtQ int64
-	debt := 0
-	var sig strings.Builder
-	rej, rejReq, rejBytes, rejCarry, overshoot := 0, false, false, false, false
-	hist := func(upto int) string {
-		var b strings.Builder
-		fmt.Fprintf(&b, "mqtt limiter requestRate=%d bytesRate=%d period=%v created@%v; history:", sc.ReqRate, sc.BytesRate, period, created.Sub(e.base))
-		from := upto - 24
-		if from < 0 {
-			from = 0
-		}
-		for i := from; i <= upto; i++ {
-			o := obs[i]
-			fmt.Fprintf(&b, "\n  %s @%v(p%d) %dB admitted=%v", o.who, o.a.Sub(e.base), c09FloorDiv(int64(o.a.Sub(created)), int64(period)), o.bytes, o.ok)
-		}
-		return b.String()
-	}
-	for i, o := range obs {
-		q := c09FloorDiv(int64(o.a.Sub(created)), int64(period))
-		if q > debtQ {
-			if sc.BytesRate > 0 {
-				d := int64(debt) - (q-debtQ)*int64(sc.BytesRate)
-				if d < 0 {
-					d = 0
-				}
-				debt = int(d)
-			}
-			debtQ = q
-		}
-		if q >= 1 && o.a.Sub(created)%period == 0 {
-			r.Probe("arrival_exactly_on_period_boundary")
-		}
-		if o.ok {
-			fmt.Fprintf(&sig, "A%d,", q)
-			cnt[q]++
-			sum[q] += o.bytes
-			if o.bytes > maxp[q] {
-				maxp[q] = o.bytes
-			}
-			debt += o.bytes
-			if sc.ReqRate > 0 && cnt[q] > sc.ReqRate {
-				r.Violate("C09.mqtt-request-rate", "%d packets admitted in period %d, requestRate=%d\n%s", cnt[q], q, sc.ReqRate, hist(i))
-				break
-			}
-			if sc.BytesRate > 0 && sum[q] > sc.BytesRate {
-				overshoot = true
-			}
-			if sc.BytesRate > 0 && sum[q]-sc.BytesRate >= maxp[q] {
-				r.Violate("C09.mqtt-bytes-rate", "%d bytes admitted in period %d: exceeds bytesRate=%d by %d, not less than one packet (largest admitted in the period: %d)\n%s",
-					sum[q], q, sc.BytesRate, sum[q]-sc.BytesRate, maxp[q], hist(i))
-				break
-			}
-			continue
-		}
-		rej++
-		fmt.Fprintf(&sig, "R%d,", q)
-		byReq := sc.ReqRate > 0 && cnt[q] >= sc.ReqRate
-		byBytes := sc.BytesRate > 0 && sum[q] >= sc.BytesRate
-		byCarry := sc.BytesRate > 0 && debt >= sc.BytesRate
-		switch {
-		case byReq:
-			rejReq = true
-		case byBytes:
-			rejBytes = true
-		case byCarry:
-			rejCarry = true
-		default:
-			r.Violate("C09.mqtt-unjustified-reject", "%s (%d bytes) rejected in period %d with %d/%d packets and %d/%d bytes admitted in the period (%d bytes charged incl. overshoot carried from earlier periods)\n%s",
-				o.who, o.bytes, q, cnt[q], sc.ReqRate, sum[q], sc.BytesRate, debt, hist(i))
-		}
-		if r.Violated() {
-			break
-		}
-	}
+	mled := &c09MLim{name: "mqtt limiter", req: sc.ReqRate, bytes: sc.BytesRate, period: period, created: created, obs: obs}
+	res := mled.eval(e)
 	p := func(c bool, n string) {
 		if c {
 			r.Probe(n)
 		}
 	}
 	p(true, "mode.mqtt")
+	p(res.boundary, "arrival_exactly_on_period_boundary")
 	p(sc.ReqRate > 0 && sc.BytesRate > 0, "mqtt.multi_limiter")
 	p(sc.ReqRate > 0 && sc.BytesRate == 0, "mqtt.request_limiter_only")
 	p(sc.ReqRate == 0 && sc.BytesRate > 0, "mqtt.byte_limiter_only")
 	p(!limited, "mqtt.unlimited")
-	p(rejReq, "mqtt.reject_by_request_rate")
-	p(rejBytes, "mqtt.reject_by_bytes_rate")
-	p(rejCarry, "mqtt.reject_only_by_carried_overshoot")
-	p(overshoot, "mqtt.bytes_overshoot_within_one_packet")
-	p(rej > 0, "rejected")
-	if rej > 0 {
+	p(res.rejReq, "mqtt.reject_by_request_rate")
+	p(res.rejBytes, "mqtt.reject_by_bytes_rate")
+	p(res.rejCarry, "mqtt.reject_only_by_carried_overshoot")
+	p(res.overshoot, "mqtt.bytes_overshoot_within_one_packet")
+	p(res.rej > 0, "rejected")
+	if res.rej > 0 {
 		r.Nontrivial()
 	}
-	r.SetSig(fmt.Sprintf("mqtt|%d|%d|%d|%s", sc.ReqRate, sc.BytesRate, ps, sig.String()))
+	r.SetSig(fmt.Sprintf("mqtt|%d|%d|%d|%s", sc.ReqRate, sc.BytesRate, ps, res.sig))
 }
 
 // ---- entry ----------------------------------------------------------------------
 
 func c09Exec(r *sim.Run, sci interface{}) {
 	sc := sci.(*c09Scenario)
-	if len(sc.Tasks) == 0 || sc.OffsetUs < 0 {
+	if sc.OffsetUs < 0 || (len(sc.Tasks) == 0 && len(sc.Clients) == 0) {
 		return
 	}
 	e := &c09Env{r: r, tls: map[uint64]*c09TL{}, base: time.Now()}
@@ -1481,6 +1552,9 @@ func c09Exec(r *sim.Run, sci interface{}) {
 	defer librl.C09HookClock(nil)
 	main := e.register()
 	time.Sleep(c09us(sc.OffsetUs))
+	if sc.Mode != "mqttc" && len(sc.Tasks) == 0 {
+		return
+	}
 	switch sc.Mode {
 	case "util", "multi":
 		c09ExecUtil(e, sc, main)
@@ -1488,6 +1562,8 @@ func c09Exec(r *sim.Run, sci interface{}) {
 		c09ExecFilter(e, sc, main)
 	case "mqtt":
 		c09ExecMQTT(e, sc, main)
+	case "mqttc":
+		c09ExecMQTTClients(e, sc, main)
 	}
 }
 
@@ -1499,13 +1575,15 @@ func TestVerifC09(t *testing.T) {
 		New:      func() interface{} { return &c09Scenario{} },
 		Exec:     c09Exec,
 		MaxSteps: 30000,
-		Rule: "scenario = one system (util RateLimiter | MultiRateLimiter | RateLimiter filter with url rules, reloads, cancellations | MQTT Limiter) with drawn policy " +
+		Rule: "scenario = one system (util RateLimiter | MultiRateLimiter | RateLimiter filter with url rules, reloads, cancellations | MQTT Limiter | MQTT broker with 1-4 clients sending CONNECT/PUBLISH/PINGREQ/PUBACK) with drawn policy " +
 			"(limit, period, timeout incl. 0 / <period / =period / multiples) + 1-4 tasks with drawn gaps (bursts, exact period boundaries +-1us, idle gaps of many periods); " +
 			"non-trivial = at least one request had to wait or was rejected; distinct = distinct (system, policy, per-limiter sequence of outcome kinds with period indexes)",
 		Real: []string{"pkg/util/ratelimiter (RateLimiter, MultiRateLimiter)", "pkg/filters/ratelimiter (Spec validation via filters.NewSpec, Init, Inherit/reload, Handle)",
-			"pkg/object/mqttproxy Limiter (newLimiter, acquirePermission)", "pkg/util/urlrule, pkg/context, pkg/protocols/httpprot"},
+			"pkg/object/mqttproxy Limiter (newLimiter, acquirePermission)", "pkg/util/urlrule, pkg/context, pkg/protocols/httpprot",
+			"mode mqttc: pkg/object/mqttproxy Broker.connectionValidation/checkConnectPermission, newClient, Client.processPacket/checkPublishLimit/runPipeline/processPublish/processPingreq/processPuback, closeAndDelSession, Broker.removeClient, getPipelineMap, paho packet codec (Write + ReadPacket)"},
 		Stub: []string{"callers, HTTP requests and their cancellation (harness)", "sync.Mutex -> simsync.Mutex (same semantics + gates)",
-			"ratelimiter.nowFunc wrapped (still time.Now on the virtual clock) to observe the instants the limiter reads", "logger = nop"},
+			"ratelimiter.nowFunc wrapped (still time.Now on the virtual clock) to observe the instants the limiter reads", "logger = nop",
+			"mode mqttc: no sockets and no newBroker/handleConn/readLoop/writeLoop - the harness assembles the Broker struct with newBroker's constructor calls, performs handleConn's registration steps and readLoop's exit path with the real functions and hands each decoded packet to Client.processPacket; sessions are made with Session.init (no resend ticker); publish pipeline = recorder that can drop a packet"},
 		Assumptions: []string{
 			"period k of a limiter is [creation+k*period, creation+(k+1)*period)",
 			"timeout horizon = arrival period and the next floor(timeout/period) periods; a rejection while a later period starting within arrival+timeout has a permit is accepted (probe)",
@@ -1514,6 +1592,8 @@ func TestVerifC09(t *testing.T) {
 			"unchanged rule = same methods, url pattern, policyRef text and same effective policy (name and fields); a switched defaultPolicyRef makes the rules without own policyRef changed rules (fresh limiter, new policy); renamed policies / duplicate rules not generated",
 			"first matching url rule limits a request",
 			"mqtt: 'less than one packet' uses the largest packet admitted in the period; a rejection may also be justified by byte overshoot carried from earlier periods",
+			"mqttc: a PUBLISH is admitted iff it reached the publish pipeline or was answered with a PUBACK of its id; every PUBLISH (any QoS, DUP, RETAIN) is one packet of its wire size against the limiter of its connection; the limiter may charge up to 8 bytes of framing on top of the wire size; PINGREQ/PUBACK take no permit",
+			"mqttc: a connection that created its own limiter starts a fresh budget (periods counted from that creation), one that did not continues the ledger of the previous connection with the same client id; the connection limiter is one broker-wide ledger over all CONNECT packets",
 		},
 	})
 }
